@@ -161,7 +161,7 @@ def mk_setitem(idx, name):
                 elif key == 'q': r[key] = 40 + j                  # integer-typed property: concrete integers
                 else: r[key] = val(f'{u}s{key}{j}')
             newrows.append(r)
-        for key in m.keys():
+        for key in list(m.keys())[::-1]:           # the assigned Atoms creates its properties in the opposite order
             col = [r[key] for r in newrows]
             kw[key] = np.array(col) if (key == 'q' or (key == 'atype' and not sx.symbolic_mode())) else sa(col)
         src = Atoms(**kw)
@@ -278,6 +278,8 @@ def h_system(variant):
             ob.append(('masses read after the symbols list grew: never shorter than natypes', len(s.masses) >= s.natypes))
             sub = s.atoms_ix[[0, 1]]; sub.symbols = ['Al', 'Cu', 'Ni', 'Fe', 'Co']
             ob.append(('same on a sub-system from atoms_ix', len(sub.masses) >= sub.natypes and sub.natypes == 5))
+            s.masses = [1.0, 2.0, 3.0, 4.0]
+            ob.append(('one mass per declared type is accepted although the last types have no atoms, and read back', tuple(s.masses) == (1.0, 2.0, 3.0, 4.0)))
             s.masses = [1.0, 2.0]
             ob.append(('masses padded to natypes', len(s.masses) >= s.natypes and s.masses[:2] == (1.0, 2.0)))
             try:
